@@ -143,6 +143,53 @@ func runC16(c *Ctx, r *Report) {
 	}
 	// ---- R-C16.3: every success return after the lock passes the bound test
 	r.Doc("R-C16.3", "every success return of Join reached after its lock is taken has passed the test of the size bound (the truncation cannot be skipped)")
+	r.Doc("R-C16.6", "the list the truncated log is rebuilt from holds at most size entries, for every size ≥ 0 (0 keeps nothing)")
+	{
+		sfj := p.SSAFunc(join)
+		lpj := NewLenProver(p, sfj)
+		var sizeP *ssa.Parameter
+		for _, pr := range sfj.Params {
+			if pr.Name() == "size" || (isIntType(pr.Type()) && sizeP == nil) {
+				sizeP = pr
+			}
+		}
+		nlen := 0
+		entriesFld := p.Field("", "IPFSLog", "Entries")
+		for _, st := range p.fieldStoresGroup(sfj, entriesFld) {
+			// the bounded store: NewOrderedMapFromEntries(<list>)
+			call, ok := st.Val.(*ssa.Call)
+			if !ok {
+				continue
+			}
+			if f := calleeOf(call); f == nil || f.Name() != "NewOrderedMapFromEntries" || len(call.Call.Args) != 1 {
+				continue
+			}
+			// in Join itself, or in a truncation helper that only Join calls (its own integer parameter is the bound;
+			// what the call site knows about it is assumed)
+			lpx, szx := lpj, sizeP
+			if st.Parent() != sfj {
+				szx = nil
+				for _, pr := range st.Parent().Params {
+					if isIntType(pr.Type()) {
+						szx = pr
+					}
+				}
+				lpx = NewLenProver(p, st.Parent())
+				lpx.useEntry = true
+			}
+			if szx == nil {
+				continue
+			}
+			nlen++
+			goal := lpx.lenTerm(call.Call.Args[0]).add(lpx.term(szx), -1)
+			okp, facts, failed := lpx.ProveAt(call.Block(), call, []lin{goal})
+			r.Check(okp, "R-C16.6", r.Key("R-C16.6", join, "kept-length", ""), call.Pos(), "len(kept list) ≤ size proved on every path of the bounded branch",
+				"cannot show that the list the truncated log is rebuilt from has at most size entries ("+failed+"): for some bound (e.g. 0, where a negated index means 'from the start') the log keeps more entries than the bound allows", facts...)
+		}
+		r.Floor("R-C16.6", "rebuilds of the entry index in the bounded branch", nlen, 1)
+	}
+	r.Doc("R-C16.7", "the heads of the truncated log are recomputed over the truncated list on every path (adopted from C02)")
+	importRules(c, r, "C02", []string{"R-C02.6"}, "R-C16.7")
 	r.Doc("R-C16.5", "the bounded merge computes its candidates, validates, applies and truncates in one critical section of the destination")
 	joinSingleSection(c, r, "R-C16.5", "a concurrent bounded merge truncates the log in the window and the stale difference is applied on top: the result is the tail of no serial order")
 	r.Doc("R-C16.4", "the size bound is used only in comparisons and in the truncating slice: the set of merged candidates does not depend on it")
